@@ -13,11 +13,11 @@ def jobs():
     qn = list(range(1, 17)) + [127, 254]
     for e in EMA_FAMILY:
         for n in qn:
-            j.append(job(e, {"n": n, "t": 12}, "%s length %d, 12 steps: next and peek equal the documented recurrence (alpha = %s) at every step, over the reals" % (NAMES[e], n, "1/n" if e == "rma" else "2/(n+1)"), enc=["src/methods/ema.rs, src/methods/rma.rs: %s::{new,next,peek}" % NAMES[e]]))
+            j.append(job(e, {"n": n, "t": 12, "shape": "f"} if e == "ema" else {"n": n, "t": 12}, "%s length %d, 12 steps: next and peek equal the documented recurrence (alpha = %s) at every step, over the reals" % (NAMES[e], n, "1/n" if e == "rma" else "2/(n+1)"), enc=["src/methods/ema.rs, src/methods/rma.rs: %s::{new,next,peek}" % NAMES[e]]))
         for n in range(1, 255):
             if n in qn:
                 continue
-            j.append(job(e, {"n": n, "t": 24}, "%s length %d, 24 steps (thorough: every length)" % (NAMES[e], n), tier="t", core=False))
+            j.append(job(e, {"n": n, "t": 24, "shape": "f"} if e == "ema" else {"n": n, "t": 24}, "%s length %d, 24 steps (thorough: every length)" % (NAMES[e], n), tier="t", core=False))
     for n in list(range(1, 17)) + [64, 127]:
         j.append(job("wsma", {"n": n, "t": 12}, "WSMA length %d, 12 steps: smoothing 1/n (EMA over 2n-1)" % n, enc=["src/methods/wsma.rs: WSMA::{new,next,peek}", "src/methods/ema.rs: EMA"]))
     for n in range(17, 128):
@@ -26,16 +26,24 @@ def jobs():
         j.append(job("wsma", {"n": n, "t": 24}, "WSMA length %d, 24 steps" % n, tier="t", core=False))
     for s in range(1, 5):
         for l in range(1, 5):
-            j.append(job("tsi", {"s": s, "l": l, "t": 6}, "TSI (short %d, long %d), 6 steps: ratio of double-smoothed momentum to double-smoothed |momentum| (0 when the denominator is 0); steps with denominator in (0, 1e-3] exempt" % (s, l), cost=5, enc=["src/methods/tsi.rs: TSI::{new,next,peek}", "src/methods/ema.rs: EMA"]))
+            j.append(job("tsi", {"s": s, "l": l, "t": 6, "shape": "f"}, "TSI (short %d, long %d), 6 steps: ratio of double-smoothed momentum to double-smoothed |momentum| (0 when the denominator is 0); steps with denominator in (0, 1e-3] exempt" % (s, l), cost=5, enc=["src/methods/tsi.rs: TSI::{new,next,peek}", "src/methods/ema.rs: EMA"]))
     for s in range(1, 9):
         for l in range(1, 9):
             if s <= 4 and l <= 4:
                 continue
-            j.append(job("tsi", {"s": s, "l": l, "t": 8}, "TSI (%d, %d), 8 steps" % (s, l), tier="t", core=False, cost=10))
+            j.append(job("tsi", {"s": s, "l": l, "t": 8, "shape": "f"}, "TSI (%d, %d), 8 steps" % (s, l), tier="t", core=False, cost=10))
     for n in range(1, 7):
-        j.append(job("vidya", {"n": n, "t": n + 4}, "Vidya length %d, n+4 steps: EMA whose smoothing 2/(n+1) is scaled by |CMO| of the last n changes; output = input when there was no change; steps with up+dn in (0, 1e-3] exempt" % n, cost=10 + 5 * n, enc=["src/methods/vidya.rs: Vidya::{new,next,peek}"]))
+        j.append(job("vidya", {"n": n, "t": n + 4, "shape": "f"}, "Vidya length %d, n+4 steps: EMA whose smoothing 2/(n+1) is scaled by |CMO| of the last n changes; output = input when there was no change; steps with up+dn in (0, 1e-3] exempt" % n, cost=10 + 5 * n, enc=["src/methods/vidya.rs: Vidya::{new,next,peek}"]))
     for n in range(7, 17):
-        j.append(job("vidya", {"n": n, "t": n + 4}, "Vidya length %d" % n, tier="t", core=False, cost=120, timeout=1800))
+        j.append(job("vidya", {"n": n, "t": n + 4, "shape": "f"}, "Vidya length %d" % n, tier="t", core=False, cost=120, timeout=1800))
+    # shaped streams (plateaus, exact returns, monotone runs, scale jumps with symbolic magnitudes): the shapes the
+    # quantifier names, fixed by construction so that the solver does not have to find them in a rational query
+    SHAPES = ["ure", "uuedd", "udud", "ues", "ddrr", "zzf", "eeu", "uer"]
+    for sh in SHAPES:
+        for n in (2, 3, 5):
+            j.append(job("vidya", {"n": n, "t": n + 5, "shape": sh}, "Vidya length %d on the shaped stream '%s' (u up, d down, e equal, r return two steps back, s x1024, z zero, f free; magnitudes symbolic), %d steps" % (n, sh, n + 5), cost=15, enc=["src/methods/vidya.rs: Vidya::{new,next,peek}"]))
+        j.append(job("tsi", {"s": 2, "l": 3, "t": 8, "shape": sh}, "TSI (2,3) on the shaped stream '%s', 8 steps" % sh, cost=5, enc=["src/methods/tsi.rs: TSI::{new,next,peek}"]))
+        j.append(job("ema", {"n": 3, "t": 8, "shape": sh}, "EMA(3) on the shaped stream '%s', 8 steps" % sh, cost=2, enc=["src/methods/ema.rs: EMA::{new,next,peek}"]))
     j.append(job("tr", {"t": 5}, "TR, 5 valid symbolic candles: next and OHLCV::tr_close equal max(h-l, |h-pc|, |l-pc|)", enc=["src/methods/tr.rs: TR::{new,next}", "src/core/ohlcv.rs: OHLCV::tr_close"]))
     j.append(job("heikin_ashi", {"t": 5}, "HeikinAshi, 5 valid symbolic candles: open/close recursion, high/low selections, volume; valid in => valid out", enc=["src/methods/heikin_ashi.rs: HeikinAshi::{new,next}", "src/core/ohlcv.rs: OHLCV::ohlc4"]))
     j.append(job("integral0", {"t": 12}, "windowless Integral, 12 steps: cumulative sum of the inputs", enc=["src/methods/integral.rs: Integral::{new,next,peek}"]))
